@@ -7,8 +7,9 @@ UNIT = dict(
     name="pktprop",
     appends=[("src/vm/interpreter.rs", "units/pktprop/vm_helper.rs"), ("src/builtins/pcap.rs", "units/pktprop/pcap_helper.rs"),
              ("src/vm/pktprop.rs", "units/pktprop/harness.rs")],
-    harnesses=[h("c15_dollar_%d_then_serialise" % d, ["C15", "C16"],
-                 "on a 48-byte frame with symbolic content (EtherType/protocol symbolic, IHL 5): $%d succeeds, the layer kind follows the dispatch field, and the packet still serialises to record header ++ captured bytes" % d,
-                 bound="frame length 48 bytes; IPv4 without options") for d in (1, 2, 3, 4)],
-    jobs=4,
+    harnesses=[h("c15_path_%s" % n, ["C15", "C16"],
+                 "on a 48-byte frame (dispatch bytes %s fixed, every other byte symbolic): $n descends to the layer kinds the dispatch fields select, caching each layer, and the packet then still serialises to record header ++ captured bytes" % n.replace("_", "/"),
+                 bound="frame length 48 bytes; IPv4 without options; one dispatch path per harness")
+               for n in ("eth_ipv4_udp", "eth_ipv4_tcp", "eth_vlan_ipv4_udp", "eth_vlan_ipv4", "eth_unknown", "eth_ipv4_unknown")],
+    jobs=6,
 )
